@@ -34,6 +34,8 @@ type Exec struct {
 	Uni   *Universe
 
 	ReadOnly bool
+	// TwoStepOpen: OpenStore + Store.OpenCollection instead of OpenStoreCollection.
+	TwoStepOpen bool
 
 	errMu   sync.Mutex
 	BgErrs  []string // errors reported through OnError
@@ -131,6 +133,16 @@ func (e *Exec) Open() error {
 		var c moss.Collection
 		err := Safe(func() error {
 			var err error
+			if e.TwoStepOpen {
+				if st, err = moss.OpenStore(e.Dir, so); err != nil {
+					return err
+				}
+				if c, err = st.OpenCollection(so, e.Cfg.PersistOptions()); err != nil {
+					st.Close()
+					st = nil
+				}
+				return err
+			}
 			st, c, err = moss.OpenStoreCollection(e.Dir, so, e.Cfg.PersistOptions())
 			return err
 		})
